@@ -984,8 +984,12 @@ def validate_spec(X, texts, label):
         return b"\n".join(l for l in out.split(b"\n") if not l.lstrip().startswith(b"#pragma")) + b"\n"
     # the compilers' output contains no macro any more: the real scanner (through next(), which converts
     # keywords) re-lexes it much faster than the scanner model (`lex` mode of the driver) would
-    GL = run_real(X, [strip_pragmas(g[1]) for g in G], "pp", plain=True)
-    CL = run_real(X, [strip_pragmas(c[1]) for c in C], "pp", plain=True) if have_clang else None
+    # (raw scan(): a line of the output may well begin with '#'; compared by spelling)
+    GL = run_real(X, [strip_pragmas(g[1]) for g in G], "raw", plain=True)
+    CL = run_real(X, [strip_pragmas(c[1]) for c in C], "raw", plain=True) if have_clang else None
+
+    def spellings(res):
+        return [l if l is not None else X.spell.get(X.kname.get(k, ""), "?").encode() for k, l in res.keys(X)]
     n = dis = 0
     for i, t in enumerate(texts):
         s = S[i]
@@ -998,8 +1002,8 @@ def validate_spec(X, texts, label):
         def verdict(rc, lexed):
             if rc != 0:
                 return ("error",)
-            return ("ok", lexed.keys(X))
-        vs = ("error",) if s.err is not None else ("ok", s.keys(X))
+            return ("ok", spellings(lexed))
+        vs = ("error",) if s.err is not None else ("ok", spellings(s))
         vg = verdict(G[i][0], GL[i])
         vc = verdict(C[i][0], CL[i]) if have_clang else vg
         n += 1
